@@ -1273,6 +1273,24 @@ func (s *vstats) walk(t *ref.Type, v ref.V, inContainer bool) {
 	}
 }
 
+// interesting: the struct has an optional field with a default or a container nested in a container.
+func interesting(st *ref.StructT) bool {
+	for _, f := range st.Fields {
+		if f.Req == idl.ReqOptional && f.HasDef {
+			return true
+		}
+		t := f.Type
+		if t.Kind == ref.List || t.Kind == ref.Set || t.Kind == ref.Map {
+			for _, x := range []*ref.Type{t.Key, t.Elem} {
+				if x != nil && (x.Kind == ref.List || x.Kind == ref.Set || x.Kind == ref.Map) {
+					return true
+				}
+			}
+		}
+	}
+	return false
+}
+
 var surveyN int
 
 func TestFast(t *testing.T) {
@@ -1306,6 +1324,13 @@ func TestFast(t *testing.T) {
 			vt.Class("program:no_reachable_struct")
 			return
 		}
+		// the shapes the property names are drawn three times as often
+		weighted := append([]*ref.StructT{}, structs...)
+		for _, st := range structs {
+			if interesting(st) {
+				weighted = append(weighted, st, st)
+			}
+		}
 		base := fastCase{Main: p.Files[0].Path, Files: p.Texts(nil), Gen: genSpec(rt), Schema: sch.Export()}
 		sess, err := openSession(base)
 		if err != nil {
@@ -1330,7 +1355,7 @@ func TestFast(t *testing.T) {
 		}
 		nvals := rapid.IntRange(10, 20).Draw(rt, "nvalues")
 		for i := 0; i < nvals; i++ {
-			st := rapid.SampledFrom(structs).Draw(rt, "struct")
+			st := rapid.SampledFrom(weighted).Draw(rt, "struct")
 			v := ref.GenStruct(rt, st, ref.GenOpts{MaxDepth: rapid.IntRange(3, 5).Draw(rt, "depth")})
 			if v != nil {
 				if cv, ok := complete(&ref.Type{Kind: ref.Struct, Struct: st}, v, 32); ok {
@@ -1356,13 +1381,11 @@ func TestFast(t *testing.T) {
 			rich := vs.optdef > 0 && vs.nested > 0
 
 			modes := []string{"write", "read"}
-			// one perturbation, when the struct allows it
-			switch rapid.IntRange(0, 3).Draw(rt, "perturb") {
-			case 0, 1:
-				c.Mode = "unknown"
+			// every perturbation the struct allows, with drawn parameters
+			{
 				tgt := st
 				if rapid.Bool().Draw(rt, "nestedtarget") {
-					tgt = rapid.SampledFrom(sch.Structs).Draw(rt, "target")
+					tgt = rapid.SampledFrom(structs).Draw(rt, "target")
 				}
 				c.Target = tgt.Name
 				for {
@@ -1373,26 +1396,33 @@ func TestFast(t *testing.T) {
 				}
 				c.ExtraKind = rapid.IntRange(0, 5).Draw(rt, "extrakind")
 				modes = append(modes, "unknown")
-			case 2:
-				if len(v.F) > 0 && st.Kind != "union" {
-					c.FieldID = rapid.SampledFrom(v.IDs()).Draw(rt, "retagfield")
-					modes = append(modes, "retag")
+			}
+			retagID, omitID := int32(0), int32(0)
+			if len(v.F) > 0 && st.Kind != "union" {
+				retagID = rapid.SampledFrom(v.IDs()).Draw(rt, "retagfield")
+				modes = append(modes, "retag")
+			}
+			var req []int32
+			for _, f := range st.Fields {
+				if f.Req == idl.ReqRequired {
+					req = append(req, f.ID)
 				}
-			case 3:
-				var req []int32
-				for _, f := range st.Fields {
-					if f.Req == idl.ReqRequired {
-						req = append(req, f.ID)
-					}
-				}
-				if len(req) > 0 {
-					c.FieldID = rapid.SampledFrom(req).Draw(rt, "omit")
-					modes = append(modes, "omit_required")
-				}
+			}
+			if len(req) > 0 {
+				omitID = rapid.SampledFrom(req).Draw(rt, "omit")
+				modes = append(modes, "omit_required")
 			}
 			modes = append(modes, "sweep")
 			for _, m := range modes {
 				c.Mode = m
+				switch m {
+				case "retag":
+					c.FieldID = retagID
+				case "omit_required":
+					c.FieldID = omitID
+				default:
+					c.FieldID = 0
+				}
 				vt.Eval()
 				o := judge(c)
 				vt.Class("status:" + o.status)
